@@ -13,7 +13,10 @@ import (
 	"os/exec"
 	"time"
 
+	"github.com/ontio/ontology-crypto/keypair"
 	"github.com/ontio/ontology/common"
+	"github.com/ontio/ontology/common/config"
+	"github.com/ontio/ontology/core/genesis"
 	"github.com/ontio/ontology/core/store"
 	"github.com/ontio/ontology/core/types"
 	"github.com/ontio/ontology/core/validation"
@@ -45,6 +48,7 @@ type Job struct {
 	Sealed  []Sealed   `json:"sealed"` // syncer: blocks as received
 	Repeat  int        `json:"repeat"`
 	Restart int        `json:"restart"`
+	Resume  bool       `json:"resume"` // open the existing data directory (second segment of a node restarted as a new process)
 	Track   []string   `json:"track"`
 	Fresh   bool       `json:"fresh"` // member: decode the wire bytes again before every ExecuteBlock repetition
 }
@@ -219,7 +223,21 @@ func runJob(job *Job, out *ChildOut) {
 		out.Fatal = "bookkeeper key: " + err.Error()
 		return
 	}
-	k, err := ledgerkit.NewWithAccount(job.Dir, acct)
+	var k *ledgerkit.Kit
+	if job.Resume {
+		// a restarted node: a NEW process opens the data directory an earlier process left behind
+		ledgerkit.ConfigureSolo(acct)
+		bookkeepers := []keypair.PublicKey{acct.PublicKey}
+		gb, gerr := genesis.BuildGenesisBlock(bookkeepers, config.DefConfig.Genesis)
+		if gerr != nil {
+			out.Fatal = "genesis: " + gerr.Error()
+			return
+		}
+		k = &ledgerkit.Kit{Dir: job.Dir, Acct: acct, Bookkeepers: bookkeepers, Genesis: gb}
+		err = k.Open()
+	} else {
+		k, err = ledgerkit.NewWithAccount(job.Dir, acct)
+	}
 	if err != nil {
 		out.Fatal = "ledger: " + err.Error()
 		return
